@@ -63,7 +63,9 @@ def gate_qubits(node):
     return [v[1] for v in node[2] if v[0] == "q"]
 
 
-def used(node, n):
+def used(node, n, sub_busy=True):
+    """Exact used-qubit set.  sub_busy: an (unexpanded) subcircuit block counts as all qubits
+    (its implicit prepare/measure); with False only the gates written in it count."""
     tag = node[0]
     if tag == "g":
         if node[1] in (PREP, MEAS):
@@ -78,12 +80,12 @@ def used(node, n):
                 s.update(v[1])
         return s
     if tag == "loop":
-        return used(node[2], n)
-    if tag == "sub":
+        return used(node[2], n, sub_busy)
+    if tag == "sub" and sub_busy:
         return set(range(n))
     out = set()
-    for k in node[1]:
-        out |= used(k, n)
+    for k in node[2] if tag == "sub" else node[1]:
+        out |= used(k, n, sub_busy)
     return out
 
 
